@@ -128,6 +128,34 @@ def run(F, R, tier):
                      "module_slots.insert(%s, ..) in load_with_redirect_count uses the specifier as written, not the one reached through the known redirect: the same specifier would have a redirect and an entry, and lookups (which follow the redirect) disagree with the walk (which finds the entry first)" % expr_text(n["args"][0]), where(n))
         R.floor("C14-d slot inserts in load_with_redirect_count", n_i, 5)
 
+    # a loaded module is filed under the specifier the loader answered with (the same one the
+    # redirect is recorded to), at every place a Module response is turned into an entry
+    hs_calls = [n for n in F.all_nodes() if n.get("k") == "Call" and (n.get("fn") or "").endswith("::handle_success") and not n["_top"].get("derived")]
+    R.floor("C14-d module responses turned into entries", len(hs_calls), 2)
+    for c in hs_calls:
+        a = c["args"]
+        key = peel_value(a[1])
+        st = [x for x in walk(a[2]) if x.get("k") == "Struct" and (x.get("adt") or "").endswith("ParseModuleAndSourceInfoOptions")]
+        parsed = peel_value([f_["e"] for f_ in st[0]["fields"] if f_["name"] == "specifier"][0]) if st else {}
+        from_resp = False
+        if key.get("res") == "local":
+            for q in c["_top"]["_nodes"]:
+                if q.get("k") == "Pat" and (q.get("path") or "").endswith("LoadResponse::Module"):
+                    for fp in q.get("fields") or []:
+                        if fp.get("name") == "specifier" and any(b_.get("lid") == key["lid"] for b_ in pat_bindings(fp["pat"])):
+                            from_resp = True
+        R.ob("C14-d", "a module response is filed under the specifier the loader answered with", from_resp and parsed.get("lid") == key.get("lid"),
+             "handle_success(.., %s, ..{ specifier: %s }): the entry is keyed by something other than the response's final specifier, while the redirect is recorded to the final specifier — lookups (which follow the redirect) find nothing and the walk (which finds the entry first) disagrees" % (expr_text(a[1])[:40], expr_text(parsed)[:40] if parsed else "?"), where(c))
+    hsb = [b for b in F.bodies if b["path"].endswith("::handle_success")]
+    if hsb:
+        lits = [n for n in hsb[0]["_nodes"] if n["k"] == "Struct" and (n.get("variant") or "").endswith("PendingInfoResponse::Module")]
+        ok = len(lits) == 1 and any(peel_value(y).get("lid") == hsb[0]["body"]["params"][1].get("lid") for f_ in lits[0]["fields"] if f_["name"] == "specifier" for y in through_locals(peel_value(f_["e"])))
+        # async fn: the parameter is re-bound inside the coroutine; accept a local of type Url that is not otherwise assigned
+        if not ok and len(lits) == 1:
+            v = peel_value([f_["e"] for f_ in lits[0]["fields"] if f_["name"] == "specifier"][0])
+            ok = v.get("res") == "local" and tyc(F, v, "url::Url") and not [d for d in local_defs(hsb[0], v["lid"]) if d[0] in ("assign", "let")]
+        R.ob("C14-d", "handle_success passes its key on unchanged", ok, "PendingInfoResponse::Module.specifier is not the key handle_success was given", hsb[0]["file"])
+
     # ---------------- C14-c ------------------------------------------------
     def slot_values(fnname):
         """(value, slot kinds named by the patterns that must have matched on
